@@ -131,9 +131,13 @@ pub fn templates() -> Vec<Template> {
             let mut v_noreport = base.clone();
             v_noreport.steps[0].depfile = None;
             v_noreport.steps[0].msvc = false;
+            // the step that declares hdr2.h is gone: hdr2.h is then numbered
+            // from the log, after hdr.h instead of before it
+            let mut v_notool = base.clone();
+            v_notool.steps.retain(|s| s.outs[0] != "tool");
             out.push(Template {
                 name: if msvc { "msvc-chain" } else { "depfile-chain" },
-                variants: vec![base, v_cmd, v_extra, v_reorder, v_newin, v_default, v_noreport],
+                variants: vec![base, v_cmd, v_extra, v_reorder, v_newin, v_default, v_noreport, v_notool],
                 manifest_name: "build.ninja".into(),
                 headers: vec!["hdr.h".into(), "hdr2.h".into()],
                 reports: [("obj".to_string(), vec!["hdr.h".to_string()])].into_iter().collect(),
